@@ -44,6 +44,18 @@ def step (st : St) (line : String) : St × String :=
                    (st, s!"ok={if g.installed then 1 else 0} sends={g.sends} chk={checksum g.cli} len={g.cli.length}")
       | none => (st, "bad-op")
     | _, _, _ => (st, "bad-op")
+  | ["synch", xs] =>
+    -- a history of transfers on one structure: start:len:budget:evs;...
+    let parsed := (xs.splitOn ";").mapM fun x => match x.splitOn ":" with
+      | [a, b, r, evs] => match a.toNat?, b.toNat?, r.toNat? with
+        | some start, some len, some budget => (parseEvs st.spa start len evs).map fun es => (⟨st.spa, start, len, budget, es⟩ : Xfer)
+        | _, _, _ => none
+      | _ => none
+    match parsed with
+    | some xfers =>
+      let states := SyncAsm.history (SyncAsm.fresh st.cli) xfers
+      (st, " | ".intercalate (states.map fun g => s!"ok={if g.installed then 1 else 0} sends={g.sends} chk={checksum g.cli} len={g.cli.length}"))
+    | none => (st, "bad-op")
   | _ => (st, "bad-op")
 
 partial def loop (h : IO.FS.Stream) (s : St) : IO Unit := do
